@@ -47,13 +47,16 @@ impl StockMem {
         ]))
     }
     async fn storage(&self) -> Result<Storage, hypercore::HypercoreError> {
+        self.storage_ow(false).await
+    }
+    async fn storage_ow(&self, overwrite: bool) -> Result<Storage, hypercore::HypercoreError> {
         let me = self.0.clone();
         Storage::open(
             move |store: Store| {
                 let me = me.clone();
                 Box::pin(async move { Ok(Box::new(SharedMem { all: me, s: store_idx(&store) }) as Box<dyn StorageTraits + Send>) })
             },
-            false,
+            overwrite,
         )
         .await
     }
@@ -111,6 +114,15 @@ impl Env for StockMem {
             with_cache(HypercoreBuilder::new(storage).open(true), cache).build().await
         })
     }
+    fn recreate_with(&self, kp: PartialKeypair, cache: CacheCfg) -> CallResult<Hypercore> {
+        run(async {
+            let storage = self.storage_ow(true).await?;
+            with_cache(HypercoreBuilder::new(storage).key_pair(kp), cache).build().await
+        })
+    }
+    fn fresh_like(&self) -> Self {
+        StockMem::with_page_size(4096)
+    }
     fn files(&self) -> Files {
         let mut out: Files = Default::default();
         for s in 0..4 {
@@ -150,6 +162,12 @@ impl Env for StockDisk {
             let storage = Storage::new_disk(&self.dir, false).await?;
             with_cache(HypercoreBuilder::new(storage).open(true), cache).build().await
         })
+    }
+    fn recreate_with(&self, kp: PartialKeypair, cache: CacheCfg) -> CallResult<Hypercore> {
+        self.create_with(kp, cache)
+    }
+    fn fresh_like(&self) -> Self {
+        StockDisk::new("c14f")
     }
     fn files(&self) -> Files {
         let mut out: Files = Default::default();
